@@ -214,7 +214,10 @@ def apply_api(api: str, m: onnx.ModelProto, opts: dict) -> onnx.ModelProto:
     if api == "rewrite":
         return rw.rewrite(mc)
     if api == "rewrite_custom":
-        return rw.rewrite(mc, pattern_rewrite_rules=[_custom_rules()[opts["kind"]]])
+        try:
+            return with_deadline(20, lambda: rw.rewrite(mc, pattern_rewrite_rules=[_custom_rules()[opts["kind"]]]))
+        except DidNotReturn as e:
+            raise RuntimeError(f"rewrite(custom rule {opts['kind']}) did not return: {e}") from None
     if api == "remove_unused_nodes":
         opt.remove_unused_nodes(mc)
         return mc
@@ -722,6 +725,27 @@ def _domain_model(kind: str, where: str, also_main: bool, rng):
     return m
 
 
+class DidNotReturn(BaseException):
+    """not an Exception: a blanket `except Exception` inside the code under test must not swallow the watchdog"""
+
+
+def with_deadline(seconds: float, fn):
+    """Run `fn()` in this (main) thread; raise DidNotReturn when it has not returned after `seconds` (SIGALRM).  A rewrite that
+    does not terminate is a behaviour of the code under test (reported as a failure of the case), not harness trouble."""
+    import signal
+
+    def on_alarm(signum, frame):
+        raise DidNotReturn(f"no result after {seconds:g} s")
+
+    old = signal.signal(signal.SIGALRM, on_alarm)
+    signal.setitimer(signal.ITIMER_REAL, seconds)
+    try:
+        return fn()
+    finally:
+        signal.setitimer(signal.ITIMER_REAL, 0)
+        signal.signal(signal.SIGALRM, old)
+
+
 def custom_rule_stream(run: core.Run, stats: Counter):
     """C04 clause "every domain used has an opset import": rewrite(model, [rule introducing com.microsoft]) on models whose
     only match is in the main graph / an If branch / a nested If / a model-local function.  Returns failures."""
@@ -742,7 +766,10 @@ def custom_rule_stream(run: core.Run, stats: Counter):
                 try:
                     mc = onnx.ModelProto()
                     mc.CopyFrom(m)
-                    m2 = rw.rewrite(mc, pattern_rewrite_rules=[rules[kind]])
+                    m2 = with_deadline(20, lambda: rw.rewrite(mc, pattern_rewrite_rules=[rules[kind]]))
+                except DidNotReturn as e:
+                    failures.append((desc, f"rewrite(custom rule {kind}, match in {where}) did not return: {e}"))
+                    continue
                 except Exception as e:
                     failures.append((desc, f"rewrite(custom rule {kind}) raised {type(e).__name__}: {str(e)[:160]}"))
                     continue
@@ -783,7 +810,10 @@ def custom_rule_stream(run: core.Run, stats: Counter):
             try:
                 mc = onnx.ModelProto()
                 mc.CopyFrom(m)
-                m2 = rw.rewrite(mc, pattern_rewrite_rules=[rules["ident"]])
+                m2 = with_deadline(6, lambda: rw.rewrite(mc, pattern_rewrite_rules=[rules["ident"]]))  # returns in < 0.1 s when it returns
+            except DidNotReturn as e:
+                d = f"rewrite(custom rule ident, match in {where}) did not return: {e}"
+                m2 = None
             except Exception as e:
                 d = f"rewrite(custom rule ident) raised {type(e).__name__}: {str(e)[:160]}"
                 m2 = None
